@@ -53,7 +53,7 @@ CHECKS = {
                        "in {Panic, Fatal} and not all(LnoInterrupt) and (not testing or any(Linterruptalways)); Panic = Go panic with the "
                        "message as value, Fatal = os.Exit(-3); the complete record is on the error writer before termination; no other "
                        "severity terminates.",
-        "bounds": {"quick": "61 entry points x 3 formats x all int64 levels x testing/production x all combinations of the non-printing flag bits; "
+        "bounds": {"quick": "message \"m\" or a text with markup and entities; recorded package level arbitrary; LogAttrs/Logit with every argument shape; 61 entry points x 3 formats x all int64 levels x testing/production x all combinations of the non-printing flag bits; "
                             "LogAttrs/Logit severities -1..13; message 'm'",
                    "thorough": "same (the space is covered completely at quick)"},
         "outside": "the exit status as seen by the parent process (253 = OS truncation of -3); loggers with a log/slog.Handler option",
@@ -70,7 +70,7 @@ CHECKS = {
                        "successful registration with a symbolic title all name/text/JSON round trips return the level. T: symbolic option "
                        "set: tags, gating as the treated-as level (all int64 logger levels), routing to the error device. B: the same round "
                        "trips and ShortTag widths for the 12 built-in levels.",
-        "bounds": {"quick": "titles: every ASCII string of length 1..3 (R) / 1..2 (N); 1 registration; all int64 values",
+        "bounds": {"quick": "R also with two registrations (1-byte titles); titles: every ASCII string of length 1..3 (R) / 1..2 (N); 1 registration; all int64 values",
                    "thorough": "titles of length 1..4 (R) / 1..3 (N); 2 registrations (R)"},
         "outside": "non-ASCII titles (Unicode case folding); short tags longer than the slot width",
         "assumptions": ["environment stubs as in C01"],
@@ -78,6 +78,7 @@ CHECKS = {
             {"harness": "VH_C17B", "covers": ["C17B:done"]},
             {"harness": "VH_C17R", "quick": {"regs": 1, "title": 3}, "thorough": {"regs": 2, "title": 4},
              "covers": ["C17R:collision", "C17R:refused", "C17R:registered"]},
+            {"harness": "VH_C17R", "quick": {"regs": 2, "title": 1}, "thorough": {"regs": 2, "title": 2}, "covers": ["C17R:collision", "C17R:refused", "C17R:registered"]},
             {"harness": "VH_C17N", "quick": {"title": 2}, "thorough": {"title": 3}, "covers": ["C17N:registered"]},
             {"harness": "VH_C17T", "covers": ["C17T:registered", "C17T:done"]},
         ],
@@ -132,7 +133,7 @@ CHECKS = {
         "assumptions": ["os.Getwd returns /tmp (engine stub; the native replayer runs in /tmp)"],
         "replay_repeat": 64,
         "runs": [
-            {"harness": "VH_C18", "quick": {"dir": 2, "path": 4, "maps": 1}, "thorough": {"dir": 2, "path": 6, "maps": 2},
+            {"harness": "VH_C18", "quick": {"dir": 2, "path": 4, "maps": 1, "relmaps": 1}, "thorough": {"dir": 2, "path": 6, "maps": 2, "relmaps": 1},
              "covers": ["C18:returned", "C18:protected", "C18:outside"]},
             {"harness": "VH_C18R", "covers": ["C18R:written"]},
             {"harness": "VH_C18", "quick": {"dir": 1, "path": 3, "maps": 0, "regexp": 1}, "thorough": {"dir": 2, "path": 4, "maps": 1, "regexp": 1},
@@ -147,7 +148,7 @@ CHECKS = {
                        "negative and beyond-length values, and scripted readers/writers (short counts, errors, negative counts); after "
                        "every step the return values, error identity classes, panic-or-not (and message after the package prefix), Len, "
                        "String and Bytes must agree.",
-        "bounds": {"quick": "pre-fill <= 2 bytes, arguments <= 2 bytes, spare capacity 0..2; sequences of 1 operation (fill 2), 2 operations (fill 1), and a canned read (none/ReadByte/ReadRune) followed by 1 operation; after every step copies of both buffers are probed with UnreadRune and UnreadByte so the last-read state is observable; Grow around 0, 64 and 512",
+        "bounds": {"quick": "a run with well-formed multi-byte content (U+FFFD, 2- and 4-byte runes) in front of the arbitrary bytes; pre-fill <= 2 bytes, arguments <= 2 bytes, spare capacity 0..2; sequences of 1 operation (fill 2), 2 operations (fill 1), and a canned read (none/ReadByte/ReadRune) followed by 1 operation; after every step copies of both buffers are probed with UnreadRune and UnreadByte so the last-read state is observable; Grow around 0, 64 and 512",
                    "thorough": "pre-fill <= 3, arguments <= 3 for single steps; sequences of 2 operations with fill 2; canned read followed by 2 operations"},
         "outside": "capacities (not observable through the listed API); longer sequences and contents",
         "assumptions": ["both implementations run on the same interpreter, so an interpreter error common to both would cancel out (translation validated by the selftest)"],
@@ -156,6 +157,7 @@ CHECKS = {
              "covers": ["C19:done"]},
             {"harness": "VH_C19", "quick": {"fill": 1, "arg": 1, "steps": 2, "spare": 1}, "thorough": {"fill": 2, "arg": 1, "steps": 2, "spare": 1},
              "covers": ["C19:done"]},
+            {"harness": "VH_C19", "quick": {"fill": 1, "arg": 1, "steps": 1, "spare": 1, "prelude": 1, "runes": 1}, "thorough": {"fill": 1, "arg": 1, "steps": 2, "spare": 1, "runes": 1}, "covers": ["C19:done"]},
             {"harness": "VH_C19", "quick": {"fill": 2, "arg": 1, "steps": 1, "spare": 1, "prelude": 1}, "thorough": {"fill": 2, "arg": 0, "steps": 2, "spare": 0, "prelude": 1},
              "covers": ["C19:done"]},
         ],
@@ -206,7 +208,7 @@ CHECKS = {
                        "order, with the identical complete payload; at most one diagnostic record, a warning, to the warning destinations, "
                        "none when the failing record was a warning or warnings are not admitted; attempts bounded by |selected|+|warning "
                        "set|; a final call with faults switched off is delivered normally (no sticky state).",
-        "bounds": {"quick": "1 faulty call + 1 recovery call; 6 severities", "thorough": "2 faulty calls + 1 recovery call"},
+        "bounds": {"quick": "severities incl. Print-severity records with messages m / empty / two newlines; 1 faulty call + 1 recovery call; 6 severities", "thorough": "2 faulty calls + 1 recovery call"},
         "outside": "longer call sequences; writers that panic",
         "assumptions": ["os.Stdout/os.Stderr are recording sinks"],
         "runs": [
@@ -224,13 +226,14 @@ CHECKS = {
                        "are no further arguments; 3 formats; verbs Error..Fail, Print, Println, Panic (no-interrupt). Asserted: the call "
                        "returns; admitted => one Write per selected destination, payload ends in newline, nothing elsewhere; not admitted "
                        "=> nothing anywhere; blank Print/Println => exactly one newline byte. A second run makes all 64 flag bits symbolic.",
-        "bounds": {"quick": "message <= 1 byte (all values); 1 argument of any kind (groups of <= 1 member of any kind) x 11 verbs; 2 arguments of any kind without nesting x 3 verbs; logger levels Trace/Warn/Off; flags run (all 64 flag bits symbolic): Info and Error, 3 formats, no arguments",
+        "bounds": {"quick": "also in test-process mode (error values dumped after the record inside the one payload) with 2 call-site arguments; message <= 1 byte (all values); 1 argument of any kind (groups of <= 1 member of any kind) x 11 verbs; 2 arguments of any kind without nesting x 3 verbs; logger levels Trace/Warn/Off; flags run (all 64 flag bits symbolic): Info and Error, 3 formats, no arguments",
                    "thorough": "message <= 2 bytes (all values); otherwise as quick, plus one argument in the all-flags run"},
         "outside": "values whose own methods panic, cyclic values (excluded by the property); longer argument lists",
         "assumptions": ["time.Now is a fixed instant; runtime.Callers answered from the engine's call stack"],
         "runs": [
             {"harness": "VH_C02", "quick": {"msg": 1, "args": 1, "depth": 1, "gmembers": 1}, "thorough": {"msg": 2, "args": 1, "depth": 1, "gmembers": 1},
              "covers": ["C02:returned", "C02:admitted", "C02:blank"]},
+            {"harness": "VH_C02", "quick": {"msg": 0, "args": 2, "depth": 0, "testmode": 1}, "thorough": {"msg": 1, "args": 2, "depth": 0, "testmode": 1}, "covers": ["C02:returned", "C02:admitted"]},
             {"harness": "VH_C02", "quick": {"msg": 0, "args": 2, "depth": 0}, "thorough": {"msg": 0, "args": 2, "depth": 0},
              "covers": ["C02:returned", "C02:admitted"]},
             {"harness": "VH_C02", "quick": {"msg": 0, "args": 0, "depth": 0, "symflags": 1}, "thorough": {"msg": 0, "args": 1, "depth": 0, "symflags": 1},
@@ -314,7 +317,7 @@ CHECKS = {
                        "them. I: the inductive step - a four-logger tree whose every logger has an arbitrary level, format state and UTC mode "
                        "(solver variables, assigned to the fields) and one of two profiles for layout/attributes/skip/context keys/writer; "
                        "one Set... operation on one logger; all others unchanged, the target as the operation denotes.",
-        "bounds": {"quick": "histories of 3 operations from one detached root; S: 3 attribute operations on a 4-logger tree; I: one operation from an arbitrary state of a fixed 4-logger tree",
+        "bounds": {"quick": "D: package-level SetLevel, then optionally the default logger's own level changed or the default logger replaced; histories of 3 operations from one detached root; S: 3 attribute operations on a 4-logger tree; I: one operation from an arbitrary state of a fixed 4-logger tree",
                    "thorough": "histories of 3 operations (4 did not finish in 30 minutes with 23 operations); S: 4 operations"},
         "outside": "random-name collisions (random names are assumed fresh); SetLevel(Debug/Trace) (process-wide side effect, C01); longer histories",
         "assumptions": ["stringtool.RandomStringPure returns fresh distinct names"],
@@ -334,7 +337,7 @@ CHECKS = {
                        "bridge) is called from a closure that records its own function and line; the closure runs under a chain of four "
                        "wrappers; the logger skips n frames; the record (3 formats; root, child and default logger) must name the closure "
                        "(n=0) or the wrapper n levels up with that wrapper's call line.",
-        "bounds": {"quick": "54 entry points x 3 formats x 4 logger kinds (root, child, default logger's tree, one of two WithSkip siblings) x skip 0..2", "thorough": "skip 0..4"},
+        "bounds": {"quick": "default logger installed as the root wrapper or as the *Entry itself; an earlier SetSkip before the one in force; 54 entry points x 3 formats x 4 logger kinds (root, child, default logger's tree, one of two WithSkip siblings) x skip 0..2", "thorough": "skip 0..4"},
         "outside": "identity between the Go runtime's frame elision/inlining and go/ssa's notion of synthetic wrapper: trusted, cross-validated because every counterexample is replayed natively",
         "assumptions": ["runtime.Callers answered from the engine's call stack"],
         "runs": [
@@ -378,7 +381,7 @@ CHECKS = {
                        "kinds (string, bool, int64/uint64 extremes, small widths, float, complex, Duration, Time, error, Stringer, []byte, "
                        "nil, []string/[]int/[]bool, struct via the fallback, groups nested to the bound incl. empty), caller field on/off: "
                        "members time/logger/level/msg/caller, one member per key, values preserved.",
-        "bounds": {"quick": "A: strings of <= 2 bytes; B: 1 attribute with group depth 1, and 2 attributes without groups",
+        "bounds": {"quick": "string/message/key positions also with four longer texts containing HTML-like markup, entities, leading blanks and CR; float64 values incl. one that is exactly a float32; A: strings of <= 2 bytes; B: 1 attribute with group depth 1, and 2 attributes without groups",
                    "thorough": "A: strings of <= 3 bytes; B as quick (group depth 2 did not finish in 30 minutes)"},
         "outside": "maps via the fallback formatter (fmt needs reflect.Value.MapRange: not encoded); user marshallers / value stringers (excluded by the property); longer strings",
         "assumptions": ["timestamp text comes from the real time formatter on a fixed instant"],
@@ -396,7 +399,7 @@ CHECKS = {
                        "including []byte, nil, error, Stringer, Duration and groups nested to the bound at every position. Asserted: one "
                        "line; time, logger, level, msg first; msg parses back; exactly one pair per attribute under its own (dotted) key "
                        "with its exact value; string-like values quoted; no forged pair.",
-        "bounds": {"quick": "rune kernel: message or string value 'a'+r+'b' for EVERY Unicode scalar value r (strconv.IsPrint as an exact interval function); message <= 2 bytes at Info and <= 1 byte (empty, blank, special, ordinary) at Error, Debug, OK, Success, Fail and a registered custom severity (no attributes); 1 attribute of any kind (incl. times needing nine fractional digits and a zone offset, durations of 1ns / 25h1m1.000000001s / negative, parsed back to the exact value) incl. a group with <= 2 members of any kind at every position; keys of 1 byte", "thorough": "as quick, plus 2 top-level attributes of any kind (an attribute after a group); group depth 2 with 2-byte keys did not finish in 30 minutes"},
+        "bounds": {"quick": "messages also among four longer texts containing HTML-like markup, entities, leading blanks and CR; rune kernel: message or string value 'a'+r+'b' for EVERY Unicode scalar value r (strconv.IsPrint as an exact interval function); message <= 2 bytes at Info and <= 1 byte (empty, blank, special, ordinary) at Error, Debug, OK, Success, Fail and a registered custom severity (no attributes); 1 attribute of any kind (incl. times needing nine fractional digits and a zone offset, durations of 1ns / 25h1m1.000000001s / negative, parsed back to the exact value) incl. a group with <= 2 members of any kind at every position; keys of 1 byte", "thorough": "as quick, plus 2 top-level attributes of any kind (an attribute after a group); group depth 2 with 2-byte keys did not finish in 30 minutes"},
         "outside": "the multi-line error dump under go test / debugger (production mode is set by the harness); user marshallers",
         "assumptions": ["runs of spaces between pairs are not counted as pairs"],
         "runs": [
@@ -440,7 +443,7 @@ CHECKS = {
                        "of another logger that recycles the pools. Reduction (argued, not checked): "
                        "if every call writes only memory it owns, two concurrent calls share only memory neither writes, so there is no "
                        "data race between them and each payload is built in private memory.",
-        "bounds": {"quick": "groups of 1..3 members over keys {a,b}; 4 argument shapes; 2 logger shapes; 3 formats; 2 messages; 2 entry points",
+        "bounds": {"quick": "shared groups also with 9 pairs out of order (18 entries); a child binding a key its parent binds (inherit flag); groups of 1..3 members over keys {a,b}; 4 argument shapes; 2 logger shapes; 3 formats; 2 messages; 2 entry points",
                    "thorough": "same (covered at quick)"},
         "outside": "any race that needs two goroutines to manifest and is not a violation of the ownership discipline; reconfiguration during logging; "
                    "global tables written by RegisterLevel/SetFlags; races inside the standard library or the destinations; delivery multiset (C02/C13 decide one Write per call)",
